@@ -2,6 +2,7 @@ use crate::engine::Ctx;
 use crate::report::Tier;
 
 pub mod c01;
+pub mod c02;
 pub mod c03;
 pub mod c07;
 pub mod c11;
@@ -15,6 +16,7 @@ pub type BoxedScenario = Box<dyn Fn(&mut Ctx) + Sync>;
 pub fn run(prop: &str, tier: Tier, seed: u64) -> Option<i32> {
     Some(match prop {
         "C01" => c01::run(tier, seed),
+        "C02" => c02::run(tier, seed),
         "C07" => c07::run(tier, seed),
         "C11" => c11::run(tier, seed),
         "C14" => c14::run(tier, seed),
@@ -28,6 +30,7 @@ pub fn run(prop: &str, tier: Tier, seed: u64) -> Option<i32> {
 pub fn scenario(prop: &str, name: &str, tier: Tier) -> Option<BoxedScenario> {
     match prop {
         "C01" => c01::scenario(name, tier),
+        "C02" => c02::scenario(name, tier),
         "C07" => c07::scenario(name, tier),
         "C11" => c11::scenario(name, tier),
         "C14" => c14::scenario(name, tier),
